@@ -18,6 +18,19 @@ CLAIMED = {
              "membership theorems are proved for the 1-D nest (2-D/3-D: see DESIGN §3 C09).",
         technique="Lean 4 proof over translator-generated model + exact differential correspondence",
         design="DESIGN.md §3 C09"),
+    "C05": dict(
+        text="Lean 4 theorems: the fft/ifft pipelines extracted from sigpy/fourier.py by the translator (resize -> ifftshift -> "
+             "(i)fftn(norm) -> fftshift; uncentred = bare transform; axis normalisation a % ndim; dtype rule) have DFT exponent "
+             "(k-n/2)(j-n/2) mod n for every n (odd/even), k*j uncentred; with a primitive n-th root of unity the scaled matrices "
+             "satisfy F^H F = I, IFFT = FFT^H, ifft(fft x) = x, norm preservation, 1/n backward scaling, Kronecker structure over "
+             "axes; centred oshape = transform of the centre-padded/cropped input (reusing C09 resize theorems). Tie: Gen/Fourier.lean "
+             "regenerated every run + exact comparison of quantised (phase, squared magnitude) matrix columns of the real "
+             "fft/ifft/FFT/IFFT with the model's table.",
+        note="Trusted: Lean kernel; translator gen_c05; numpy fftn/ifftn/roll contract written by hand in Model/C05.lean and "
+             "validated by the quantised correspondence; IEEE rounding not modelled (1e-5 / 1e-10 tolerances when quantising); "
+             "n-fold Kronecker induction over an arbitrary axes list is validated, the 2-factor step is proved.",
+        technique="Lean 4 proof over translator-generated pipeline + exact quantised differential correspondence",
+        design="DESIGN.md §3 C05, §9"),
 }
 NOT_YET = "check not built yet in this round (framework exists; see DESIGN.md §8 build order)"
 
